@@ -201,6 +201,8 @@ DY_BOXES = [
     ('offset', 2.0 ** 20, 2.0 ** 20 + 1.0), ('offset-neg', -(2.0 ** 20) - 0.5, -(2.0 ** 20) + 1.5),
     ('tiny', 0.0, 2.0 ** -30), ('tiny-off', 2.0 ** -30, 3 * 2.0 ** -30), ('huge', -(2.0 ** 30), 3 * 2.0 ** 30),
     ('odd', 0.125, 7.375),
+    # huge offset relative to the width, every node an exact double (stream 4 skips them: its precondition fails)
+    ('off2^52', 2.0 ** 52, 2.0 ** 52 + 32.0), ('off-2^52', -(2.0 ** 52), -(2.0 ** 52) + 32.0), ('off2^40', 2.0 ** 40, 2.0 ** 40 + 32.0),
 ]
 # boxes for the enumeration on the implementation
 BOXES = [
@@ -1123,6 +1125,55 @@ def o_ties18(tn, p2, q2, ks):
     return None
 
 
+def o_offset(tn, a, w, n):
+    """uniform grid on a box [a, a + w] whose offset is huge relative to its width (|a| / w up to 2^52) and whose nodes
+    a + i w/(n-1) are all exact doubles: the code is exact there (measured on the unchanged tree), so ind_to_poi must
+    return exactly the nodes, poi_scale exactly the correctly rounded (x - a)/(b - a) clipped to [0, 1], poi_to_ind the
+    index of every node and of the exactly representable points between nodes; references in exact rational arithmetic"""
+    b = a + w
+    h = Fr(w, n - 1)
+    I = list(range(n)) if n <= 300 else sorted({0, 1, 2, n // 3, n // 2, n - 3, n - 2, n - 1})
+    ref = [Fr(a) + h * i for i in I]
+    if any(Fr(float(x)) != x for x in ref):
+        return None
+    X = np.asarray(tn.ind_to_poi(I, a, b, n, 'uni'), dtype=float)
+    if X.tolist() != [float(x) for x in ref]:
+        k = [j for j in range(len(I)) if X[j] != float(ref[j])][0]
+        return dict(what='ind_to_poi(uni): node of a huge-offset box is not the exactly representable grid node',
+                    index=I[k], got=float(X[k]), expected=float(ref[k]))
+    back = np.asarray(tn.poi_to_ind(X, a, b, n, 'uni')).tolist()
+    if back != I:
+        k = [j for j in range(len(I)) if back[j] != I[j]][0]
+        return dict(what='poi_to_ind(ind_to_poi(i)) != i (uni) on a huge-offset box with exactly representable nodes',
+                    index=I[k], got=back[k], expected=I[k])
+    pts, exp_i, exp_s = [], [], []
+    for i, x in zip(I, ref):
+        for off in (Fr(0), Fr(1, 4), Fr(-1, 4), Fr(3, 8)):
+            q_ = x + h * off
+            if Fr(float(q_)) == q_:
+                pts.append(float(q_))
+                t = Fr(i) + off
+                exp_i.append(min(max(int(t + Fr(1, 2)) if t >= 0 else 0, 0), n - 1))
+                exp_s.append(float(min(max(t / (n - 1), Fr(0)), Fr(1))))
+    pts += [a - w, b + w]
+    exp_i += [0, n - 1]
+    exp_s += [0.0, 1.0]
+    S = np.asarray(tn.poi_scale(np.array(pts), a, b, 'uni'), dtype=float).tolist()
+    for x, s_, e_ in zip(pts, S, exp_s):
+        if abs(s_ - e_) > 4 * math.ulp(max(e_, 2.0 ** -50)):
+            return dict(what='poi_scale(uni) on a huge-offset box: not the correctly rounded (x - a)/(b - a)', point=x,
+                        got=s_, expected=e_)
+    G = np.asarray(tn.poi_to_ind(np.array(pts), a, b, n, 'uni')).tolist()
+    if G != exp_i:
+        k = [j for j in range(len(pts)) if G[j] != exp_i[j]][0]
+        return dict(what='poi_to_ind(uni) on a huge-offset box: exactly representable point goes to the wrong index',
+                    point=pts[k], got=G[k], expected=exp_i[k])
+    one = np.asarray(tn.poi_to_ind([pts[0], pts[-1]], [a, a], [b, b], [n, n], 'uni')).tolist()
+    if one != [exp_i[0], exp_i[-1]]:
+        return dict(what='poi_to_ind(uni) on a huge-offset box: per-dimension options differ from scalar options', got=one)
+    return None
+
+
 INT_DTYPES = ['int8', 'uint8', 'int16', 'uint16', 'int32', 'uint32', 'int64', 'uint64']
 
 
@@ -1186,7 +1237,7 @@ def o_bign(tn, a, b, n, kind, idx):
     return None
 
 
-ORACLES = dict(idtypes=o_idtypes, ties=o_ties18, pow2=o_scale18, bign=o_bign, history=o_history, grid=o_grid, points=o_points, scale=o_scale, batch=o_batch, bcast=o_bcast, flat=o_flat,
+ORACLES = dict(offset=o_offset, idtypes=o_idtypes, ties=o_ties18, pow2=o_scale18, bign=o_bign, history=o_history, grid=o_grid, points=o_points, scale=o_scale, batch=o_batch, bcast=o_bcast, flat=o_flat,
                reject=o_reject, cdf=o_cdf)
 
 
@@ -1316,6 +1367,15 @@ def search(R, ctx, deep, hints):
         idx = [rng.randrange(n) for _ in range(5)] + [0, n - 1]
         ts = [rng.uniform(-0.3, 1.3) for _ in range(6)] + [0.0, 1.0]
         _run(tn, 'pow2', (a, b, n, kind, p2, idx, ts), fails, cnt)
+    # 4f. boxes whose offset is huge relative to their width, on exactly representable nodes (exact rational references)
+    for a in [2.0 ** 52, -(2.0 ** 52), 2.0 ** 40, -(2.0 ** 40), 1e16, -1e16, 2.0 ** 52 - 8.0, 2.0 ** 30, -(2.0 ** 45), 2.0 ** 50]:
+        for w in [24, 40, 2, 8, 64, 1024, 2 ** 20, 6, 48]:
+            if (a + w) - a != w:
+                continue
+            u = max(math.ulp(a), math.ulp(a + w))
+            divs = [n for n in range(2, min(w, 4096) + 2) if w % (n - 1) == 0 and (w // (n - 1)) % u == 0]
+            for n in (divs if len(divs) <= 6 or deep else rng.sample(divs, 6)):
+                _run(tn, 'offset', (a, w, n), fails, cnt)
     # 4e. index arrays of every integer dtype up to the largest value the dtype holds (n up to that + 1), both kinds
     for dt in INT_DTYPES:
         mx = int(np.iinfo(dt).max)
